@@ -145,6 +145,52 @@ CLAIMED = {
             "selection never reorders / modifies the set; __init__, import_key_set and as_dict keep every key and give it a kid; the three "
             "set_kid siblings write kid; the sender key is resolved by skid.",
             "kid-before-header ordering is decided under C03", "5/C14"),
+    "C03": ("static analysis: byte-term normalisation of signing input vs emitted segments, CFG dominance of key selection over header "
+            "encoding, arithmetic-shape rule for R||S widths, regex AST of the RFC 7797 pattern",
+            "Claimed for structural clauses only (necessary conditions of the round trip): at all 4 sign sites the emitted header / payload "
+            "segments are exactly the terms that form the signing input and the signature is BASE64URL(alg.sign(that input)); key selection "
+            "(which may record a kid) dominates the encoding of the protected header; encode_int / ECDSA sign / verify use ceil(bits / 8) octets "
+            "from the same curve_key_size with left padding (P-521 = 66, which the environment's suite cannot run); detaching replaces only "
+            "segment 1 / deletes only 'payload' from a deep copy; the attach/detach pattern, parsed with re._parser, is an anchored match of "
+            "exactly the 65 URL-safe characters. Not decided (the bulk): equality of the recovered payload / header for every payload, key "
+            "and header value - value-level.",
+            "verification side: C01", "5/C03"),
+    "C04": ("static analysis: CFG dominance of the mode-restriction guards, mirror comparison of the zip conditions, literal member-name sets "
+            "of writers vs readers vs RFC 7516, statement-order check of the header merge",
+            "Claimed for four structural clauses: direct-mode CEK computation is dominated by the ConflictAlgorithmError guard on several "
+            "recipients, and the ECDH-1PU encrypt side calls _check_enc (raise iff key wrapping and not CBC-HMAC) first; compression is applied "
+            "to what enc.encrypt receives and decompression to what enc.decrypt returns under the identical condition `'zip' in obj.protected`; "
+            "the member names written by represent_* equal those read by extract_* and RFC 7516 7.2, compact is five segments in the RFC order on "
+            "both sides; Recipient.headers merges protected -> unprotected -> per-recipient into a fresh dict and add_header writes protected for "
+            "compact, per-recipient otherwise. Not decided: plaintext equality over all alg x enc x zip x curve x length classes.",
+            "RFC 7516 section 7", "5/C04"),
+    "C07": ("static analysis: folded JWS parameter table vs RFC 7518/8037/8812, primitive call-shape table, byte-term of the signing input at "
+            "every sign site, plus the C01 received-octets and C03 width rules",
+            "Decides tables and layout: each of the 15 JWS models folds to the RFC's (class, key type, hash, curve, PKCS1v15 / PSS(MGF1 same "
+            "hash, salt = digest size)); HMAC is hmac.new(raw key octets, msg, SHA-n), RSA/ECDSA/EdDSA primitives get (…, padding, hash) / "
+            "ECDSA(hash) / pure message; the signing input term is B64J(protected) '.' B64U(payload) (payload unencoded only in the RFC 7797 "
+            "modules); received octets are verified, so foreign header spellings verify (R01.3); R||S is fixed width with DER conversion (R03.3); "
+            "header JSON is compact ASCII and base64url unpadded; public JWK members per key type equal RFC 7518 6 / RFC 8037 2. Not decided: "
+            "agreement with an independent implementation for every input (needs an oracle implementation - a different technique).",
+            "frozen RFC tables; pyca primitives implement the named schemes", "5/C07"),
+    "C08": ("static analysis: folded JWE parameter tables vs RFC 7518 and the drafts, byte-term normalisation of the AAD, CBC-HMAC MAC input, "
+            "Concat-KDF other-info and PBES2 salt against RFC terms, primitive call-shape table, plus C02 / C04 / C17 rules",
+            "Decides tables and layout: 21 key-management and 8 content-encryption models fold to the RFC / draft parameters (paddings, key "
+            "sizes, wrapper pairing, cek / iv sizes, hashes, tag_aware); AAD = B64J(protected) ['.' B64U(aad)] computed after key management "
+            "completed the header, and on consumption the received octets (R02.2); CBC-HMAC: MAC key first half, ENC key second half, MAC over "
+            "aad || iv || ciphertext || 64-bit AL in bits, tag = first key_len octets; Concat KDF other-info = len32.AlgorithmID || len32.apu "
+            "|| len32.apv || u32(keydatalen) [|| len32.tag] with alg / key size when wrapping else enc / CEK size, SHA-256, 1PU Z = Ze || Zs; "
+            "PBES2 salt = alg || 0x00 || p2s, PBKDF2 with the model hash then AES-KW; raw DEFLATE; member names. Not decided: interoperation "
+            "with an independent implementation for every input.",
+            "frozen RFC / draft tables; pyca and pycryptodome implement the named schemes", "5/C08"),
+    "C19": ("static analysis: who-may-call layering rule for base64 / binascii, configuration check of the strict decoder and the encoders",
+            "Claimed for configuration and layering only (each a necessary condition): base64 is called only in util.py and binascii only in "
+            "util.py / rfc7518/util.py, so strictness is global; the decoder is base64.b64decode(s, b'-_', validate=True) with '+' and '/' "
+            "refused first, padding restored from the length and ValueError refusals; the encoder is the URL-safe alphabet with padding "
+            "stripped; int_to_base64 refuses negatives and uses the minimal unsigned big-endian form, base64_to_int is big-endian over the "
+            "strict decoding; json_b64encode uses compact separators, json_b64decode = json.loads o urlsafe_b64decode. Not decided: "
+            "bijectivity over all octet strings - a property of CPython's binascii C code, outside the analysed source.",
+            "CPython base64 / binascii behaviour with validate=True", "5/C19"),
 }
 
 NOT_YET = "check not built yet (build in progress; see DESIGN.md section 5 for the planned rules)"
